@@ -60,6 +60,11 @@ def check_monoidal(rep, D, shard):
                     rep.fail('C04:dom_cod', 'image has type %r -> %r' % (img.dom, img.cod), inp)
                 eq(rep, 'dagger', lambda: F(d[::-1]), lambda: F(d)[::-1], inp)
                 eq(rep, 'id', lambda: F(Id(d.dom)), lambda: Id(F(d.dom)), inp)
+                # the empty formal sum (zero morphism) of d's hom-set is sent to the zero of the image hom-set
+                from discopy.monoidal import Sum as _Sum
+                eq(rep, 'sum.zero', lambda: F(_Sum([], d.dom, d.cod)), lambda: _Sum([], F(d.dom), F(d.cod)), inp)
+                eq(rep, 'sum.zero.dom', lambda: F(_Sum([], d.dom, d.cod)).dom, lambda: F(d.dom), inp)
+                eq(rep, 'sum.zero.cod', lambda: F(_Sum([], d.dom, d.cod)).cod, lambda: F(d.cod), inp)
                 for k in range(len(d) + 1):
                     eq(rep, 'slice', lambda: F(d[:k]) >> F(d[k:]), lambda: img, inp + ' at %d' % k)
                 for e in D[:25]:
@@ -90,6 +95,7 @@ def check_cat(rep):
                 if (a.dom, a.cod) == (b.dom, b.cod):
                     eq(rep, 'cat.sum', lambda: F(a + b), lambda: F(a) + F(b), inp + ' ; %r' % (b,))
             eq(rep, 'cat.bubble', lambda: F(a.bubble()), lambda: F(a).bubble(), inp)
+            eq(rep, 'cat.sum.zero', lambda: F(cat.Sum([], a.dom, a.cod)), lambda: cat.Sum([], F(a.dom), F(a.cod)), inp)
 
 
 def check_rigid(rep, shard):
@@ -133,6 +139,9 @@ def check_rigid(rep, shard):
             eq(rep, 'rigid.dom', lambda: img[1].dom, lambda: F(d.dom), inp)
             eq(rep, 'rigid.cod', lambda: img[1].cod, lambda: F(d.cod), inp)
             eq(rep, 'rigid.dagger', lambda: F(d[::-1]), lambda: img[1][::-1], inp)
+            from discopy.monoidal import Sum as _Sum
+            eq(rep, 'rigid.sum.zero', lambda: F(_Sum([], d.dom, d.cod)), lambda: _Sum([], F(d.dom), F(d.cod)), inp)
+            eq(rep, 'rigid.sum', lambda: F(d + d), lambda: F(d) + F(d), inp)
             for e in diagrams:
                 eq(rep, 'rigid.tensor', lambda: F(d @ e), lambda: F(d) @ F(e), inp + ' ; %r' % (e,))
                 if d.cod == e.dom:
